@@ -90,7 +90,7 @@ def run_property(pid, tier, seed, replay=None, jobs=None, max_cases=None):
         return 3
     workdir = os.path.join(VERIF, "out", "work", f"{pid}-{os.getpid()}")
     os.makedirs(workdir, exist_ok=True)
-    nshards = 1 if replay else min(len(cases), jobs * getattr(prop, "SHARDS_PER_JOB", 3))
+    nshards = 1 if replay else min(len(cases), jobs * getattr(prop, "SHARDS_PER_JOB", 1 if tier == "quick" else 3))
     shards = [cases[i::nshards] for i in range(nshards)]
     timeout = getattr(prop, "SHARD_TIMEOUT", {"quick": 600, "thorough": 3600})[tier]
     with ThreadPoolExecutor(max_workers=jobs) as ex:
